@@ -200,8 +200,9 @@ def twins(repo, rep):
     def tail(fi):
         thr = coef = None
         for n in ast.walk(fi.node):
-            if isinstance(n, ast.Compare) and len(n.ops) == 1 and isinstance(n.ops[0], ast.Gt):
-                v = repo.const(fi.module, n.comparators[0])
+            if isinstance(n, ast.Compare) and len(n.ops) == 1 and isinstance(n.ops[0], (ast.Gt, ast.Lt)):
+                # E0 canonical form: `freq[-1] > 0.333` is stored as `0.333 < freq[-1]`
+                v = repo.const(fi.module, n.left if isinstance(n.ops[0], ast.Lt) else n.comparators[0])
                 if isinstance(v, float):
                     thr = v
             if isinstance(n, ast.BinOp) and isinstance(n.op, ast.Mult):
